@@ -9,6 +9,8 @@ pub enum FaultSpec {
     None,
     /// F-SER at the k-th nested Serialize::serialize call
     Ser(u32),
+    /// F-SER after the k-th nested call's own serializer call returned
+    SerExit(u32),
     /// F-SER at every k (one execution per k)
     SerEvery,
     /// F-VIS at visitor callback k, at entry (false) or exit (true)
